@@ -43,6 +43,10 @@ pub struct Cfg {
     pub max_block_bytes: u64,
     pub max_block_cycles: u64,
     pub max_block_proposals: u64,
+    /// genesis cells locked by a script whose verdict depends on the witness
+    /// (exec_caller_from_witness: runs the program carried in witness 0)
+    #[serde(default)]
+    pub wlock_cells: usize,
 }
 
 impl Cfg {
@@ -65,6 +69,7 @@ impl Cfg {
             max_block_bytes: 597_000,
             max_block_cycles: 3_500_000_000,
             max_block_proposals: 1_500,
+            wlock_cells: 0,
         }
     }
 }
@@ -251,6 +256,8 @@ pub struct World {
     pub by_hash: BTreeMap<Byte32, usize>,
     pub code_dep: CellDep,
     pub code_hash: Byte32,
+    pub wcode_dep: CellDep,
+    pub wcode_hash: Byte32,
     /// all transactions ever generated (pool of candidates to propose/commit on any branch)
     pub txs: Vec<MTx>,
     pub tx_by_id: BTreeMap<ProposalShortId, usize>,
@@ -275,6 +282,16 @@ pub struct Recipe {
     pub seed: u64,
     /// deliberate single-rule mutation (block becomes invalid); see `mutate`
     pub mutation: Option<String>,
+}
+
+pub fn always_failure_bin() -> Bytes {
+    static BIN: &[u8] = include_bytes!("/repo/script/testdata/always_failure");
+    Bytes::from_static(BIN)
+}
+
+pub fn exec_caller_from_witness_bin() -> Bytes {
+    static BIN: &[u8] = include_bytes!("/repo/script/testdata/exec_caller_from_witness");
+    Bytes::from_static(BIN)
 }
 
 pub fn always_success_bin() -> Bytes {
@@ -318,9 +335,36 @@ impl World {
                     .build(),
             )
             .output_data(Bytes::new())
+            .output(
+                CellOutput::new_builder()
+                    .capacity(Capacity::shannons((exec_caller_from_witness_bin().len() as u64 + 8 + 33 + 100) * SHANNONS))
+                    .lock(lock0.clone())
+                    .build(),
+            )
+            .output_data(exec_caller_from_witness_bin())
             .witness(lock0.clone().into_witness())
             .build();
+        let wcode_hash = CellOutput::calc_data_hash(&exec_caller_from_witness_bin());
         let mut gtxs = vec![tx0.clone()];
+        for i in 0..cfg.wlock_cells {
+            let lock = Script::new_builder()
+                .code_hash(wcode_hash.clone())
+                .hash_type(ScriptHashType::Data1)
+                .args(Bytes::from(vec![i as u8]))
+                .build();
+            gtxs.push(
+                TransactionBuilder::default()
+                    .input(CellInput::new(OutPoint::null(), 1_000 + i as u64))
+                    .output(
+                        CellOutput::new_builder()
+                            .capacity(Capacity::shannons(20_000 * SHANNONS))
+                            .lock(lock)
+                            .build(),
+                    )
+                    .output_data(Bytes::new())
+                    .build(),
+            );
+        }
         for (i, cap) in cfg.genesis_cells.iter().enumerate() {
             let args = [(i % 5) as u8, (i / 5) as u8];
             let lock = Script::new_builder()
@@ -442,6 +486,10 @@ impl World {
             .out_point(OutPoint::new(tx0.hash(), 0))
             .dep_type(DepType::Code)
             .build();
+        let wcode_dep = CellDep::new_builder()
+            .out_point(OutPoint::new(tx0.hash(), 2))
+            .dep_type(DepType::Code)
+            .build();
         let g = MBlock {
             idx: 0,
             parent: None,
@@ -464,6 +512,8 @@ impl World {
             by_hash,
             code_dep,
             code_hash,
+            wcode_dep,
+            wcode_hash,
             txs: Vec::new(),
             tx_by_id: BTreeMap::new(),
         }
@@ -697,7 +747,7 @@ impl World {
                 .cells
                 .iter()
                 .filter(|(op, c)| {
-                    c.output.lock().code_hash() == self.code_hash
+                    (c.output.lock().code_hash() == self.code_hash || c.output.lock().code_hash() == self.wcode_hash)
                         && c.output.type_().is_none()
                         && !(op.tx_hash() == self.blocks[0].view.transactions()[0].hash())
                         && c.capacity() >= 200 * SHANNONS
@@ -714,6 +764,12 @@ impl World {
                     ins.push((op.clone(), c.clone()));
                 }
             }
+            // a witness-locked input must be input 0 (its lock executes witness 0); at most one per tx
+            ins.sort_by_key(|(_, c)| c.output.lock().code_hash() != self.wcode_hash);
+            if ins.len() > 1 && ins[1].1.output.lock().code_hash() == self.wcode_hash {
+                ins.truncate(1);
+            }
+            let has_wlock = ins[0].1.output.lock().code_hash() == self.wcode_hash;
             let total: u64 = ins.iter().map(|(_, c)| c.capacity()).sum();
             let fee = rng.range(0, 3) * 1_000 + rng.range(0, 999);
             let m = rng.urange(1, 3);
@@ -721,7 +777,16 @@ impl World {
             let mut left = total - fee;
             for j in 0..m {
                 let args = [rng.below(5) as u8, rng.below(3) as u8];
-                let lock = self.lock(&args[..rng.urange(0, 2)]);
+                let lock = if has_wlock && j == 0 && rng.chance(2, 3) {
+                    // keep a witness-locked cell in circulation
+                    Script::new_builder()
+                        .code_hash(self.wcode_hash.clone())
+                        .hash_type(ScriptHashType::Data1)
+                        .args(Bytes::from(vec![rng.below(4) as u8]))
+                        .build()
+                } else {
+                    self.lock(&args[..rng.urange(0, 2)])
+                };
                 let data_len = if rng.chance(1, 4) { rng.urange(1, 9) } else { 0 };
                 let o0 = CellOutput::new_builder().lock(lock).build();
                 let min = occupied(&o0, data_len);
@@ -747,8 +812,11 @@ impl World {
             for (o, d) in outs {
                 tb = tb.output(o).output_data(d);
             }
-            // witnesses vary independently of content
-            if rng.chance(1, 2) {
+            if has_wlock {
+                // the lock runs the program carried in witness 0: always_success => valid
+                tb = tb.cell_dep(self.wcode_dep.clone()).witness(always_success_bin().pack());
+            } else if rng.chance(1, 2) {
+                // witnesses vary independently of content
                 let wl = rng.urange(0, 12);
                 tb = tb.witness(Bytes::from(rng.bytes(wl)).pack());
             }
@@ -1191,6 +1259,26 @@ pub fn mutate(
             let mut txs = all_txs.to_vec();
             txs[0] = ncb;
             (bb.set_transactions(txs), Some(m.into()))
+        }
+        "witness_swap" => {
+            // same transaction content, different witness: the lock of input 0 executes witness 0,
+            // so swapping always_success for always_failure makes the script fail while the tx hash
+            // (and any cache entry keyed by it) stays the same
+            let ok_w = always_success_bin();
+            let pos = all_txs.iter().skip(1).position(|t| t.witnesses().get(0).map(|w| w.raw_data() == ok_w).unwrap_or(false));
+            match pos {
+                None => (bb, None),
+                Some(i) => {
+                    let i = i + 1;
+                    let mut ws: Vec<packed::Bytes> = all_txs[i].witnesses().into_iter().collect();
+                    ws[0] = always_failure_bin().pack();
+                    let bad = all_txs[i].as_advanced_builder().set_witnesses(ws).build();
+                    debug_assert_eq!(bad.hash(), all_txs[i].hash());
+                    let mut txs = all_txs.to_vec();
+                    txs[i] = bad;
+                    (bb.set_transactions(txs), Some(m.into()))
+                }
+            }
         }
         "no_extension" => (bb.extension(None), Some(m.into())),
         "bad_chain_root" => {
